@@ -35,10 +35,12 @@ pub enum Fam {
     SmallSupport,
     NearVacuous,
     Staircase,
+    FewMinterms,
+    GatedPartSym,
 }
 
 impl Fam {
-    pub const ALL: [Fam; 17] = [
+    pub const ALL: [Fam; 19] = [
         Fam::Random,
         Fam::Sparse,
         Fam::Dense,
@@ -56,6 +58,8 @@ impl Fam {
         Fam::SmallSupport,
         Fam::NearVacuous,
         Fam::Staircase,
+        Fam::FewMinterms,
+        Fam::GatedPartSym,
     ];
     pub fn name(self) -> &'static str {
         match self {
@@ -76,6 +80,8 @@ impl Fam {
             Fam::SmallSupport => "small-support",
             Fam::NearVacuous => "near-vacuous",
             Fam::Staircase => "staircase",
+            Fam::FewMinterms => "few-minterms",
+            Fam::GatedPartSym => "gated-partially-symmetric",
         }
     }
 }
@@ -258,6 +264,84 @@ pub fn gen(f: Fam, n: usize, rng: &mut Rng) -> Vec<u64> {
                 };
                 let b = get(&v, pos);
                 set(&mut v, pos, !b);
+            }
+            v
+        }
+        Fam::FewMinterms => {
+            // 2..6 true assignments that are images of one another under exchanges / complementations of a few
+            // variables (so that a permutation or flip of variables maps minterms onto minterms), optionally with
+            // one unrelated minterm, optionally complemented (few false assignments)
+            let mut v = vec![0u64; w];
+            if n == 0 {
+                return Model::constant(0, rng.bool()).to_blocks();
+            }
+            let base = rng.below(size);
+            let mut ms = vec![base];
+            let k = rng.range(1, 5);
+            for _ in 0..k {
+                let src = *rng.pick(&ms);
+                let i = rng.below(n);
+                let j = rng.below(n);
+                let m = match rng.below(3) {
+                    0 => {
+                        // exchange the values of variables i and j
+                        let (bi, bj) = ((src >> i) & 1, (src >> j) & 1);
+                        (src & !(1 << i) & !(1 << j)) | (bj << i) | (bi << j)
+                    }
+                    1 => src ^ (1 << i),
+                    _ => src ^ (1 << i) ^ (1 << j),
+                };
+                ms.push(m);
+            }
+            if rng.chance(1, 4) {
+                ms.push(rng.below(size));
+            }
+            for m in ms {
+                set(&mut v, m, true);
+            }
+            if rng.chance(1, 3) {
+                for m in 0..size {
+                    let b = get(&v, m);
+                    set(&mut v, m, !b);
+                }
+            }
+            v
+        }
+        Fam::GatedPartSym => {
+            // x_c ? g : h where one branch is a constant (x_c & g, x_c | g, ...) or symmetric in a pair of
+            // variables while the other branch is not: symmetries that hold in one cofactor only
+            if n < 3 {
+                return random_blocks(n, rng);
+            }
+            let vars = pick_vars(n, 3, rng);
+            let (c, a, b) = (vars[0], vars[1], vars[2]);
+            let g = random_blocks(n, rng);
+            let h_kind = rng.below(4);
+            let mut h = random_blocks(n, rng);
+            if h_kind >= 2 {
+                // make h symmetric in (a, b): copy the value at (a=1,b=0) to (a=0,b=1)
+                for m in 0..size {
+                    if (m >> a) & 1 == 0 && (m >> b) & 1 == 1 {
+                        let src = (m | (1 << a)) & !(1 << b);
+                        let bit = get(&h, src);
+                        set(&mut h, m, bit);
+                    }
+                }
+            }
+            let mut v = vec![0u64; w];
+            let pol = rng.bool();
+            for m in 0..size {
+                let sel = ((m >> c) & 1 == 1) == pol;
+                let bit = if sel {
+                    get(&g, m)
+                } else {
+                    match h_kind {
+                        0 => false,
+                        1 => true,
+                        _ => get(&h, m),
+                    }
+                };
+                set(&mut v, m, bit);
             }
             v
         }
